@@ -245,6 +245,23 @@ fn check_transport(m: &mut Monitor, case: u64, c: &TransportCase) {
                 None => m.skip("transport:correlation=closed form", "no coefficients in record"),
             }
         }
+        // transport properties are intensive: the same (T, rho, x) with a different amount of
+        // substance gives the same property, reference and reduced property
+        {
+            let lambda = [1e-3, 7.5, 6.02214076e23 / ss.ntot][k % 3];
+            let mut big = ss.clone();
+            big.ntot = ss.ntot * lambda;
+            if let Some(st2) = make_state(eos, &big) {
+                for &p in props {
+                    if let (Ok(a), Ok(b)) = (p.get(&st), p.get(&st2)) {
+                        let d = serr(a.0, b.0, 0.0).max(serr(a.1, b.1, 0.0)).max((a.2 - b.2).abs() / a.2.abs().max(1.0));
+                        m.check("transport:independent of the amount of substance", &format!("{tag}|{}|intensive", p.name()), case, d, 1e-9, || {
+                            json!({"model": c.mc.spec, "state": ss.json(), "scaled by": lambda, "property": p.name(), "X, X_ref, ln X_red": [a.0, a.1, a.2], "scaled state": [b.0, b.1, b.2]})
+                        });
+                    }
+                }
+            }
+        }
         if c.mc.n > 1 {
             // documented restriction: diffusion / thermal conductivity are pure-component only
             let e1 = st.diffusion().is_err();
